@@ -211,6 +211,7 @@ func checkPoly(t TB, c PolyCase) {
 	var sumZero, rZero bool
 	bZero := ref.AllZero(c.B)
 	var aAfter, bAfter, aSlice, bSlice []int
+	var mod *[3][]int
 	if pv := try(func() {
 		aSlice, bSlice = cp(c.A), cp(c.B)
 		pa, pb := utils.NewGFPoly(gf, aSlice), utils.NewGFPoly(gf, bSlice)
@@ -230,6 +231,18 @@ func checkPoly(t TB, c PolyCase) {
 			rDeg, rZero = rr.Degree(), rr.Zero()
 			_ = rr.GetCoefficient(0)
 			libBack = cp(qq.Multiply(pb).AddOrSubstract(rr).Coefficients) // the statement, evaluated by the library itself
+			// the same divisor object after the caller changed its leading coefficient (Coefficients is exported):
+			// the division must follow the divisor as it is now
+			if lead := pb.Coefficients[0]; lead != 0 {
+				newLead := lead%(sp.Size-1) + 1
+				pb.Coefficients[0] = newLead
+				var q2, r2 *utils.GFPoly
+				if !withWatchdogFor(20*time.Second, func() { q2, r2 = pa.Divide(pb) }) {
+					panic("Divide by a divisor whose leading coefficient the caller had changed did not return within 20 s")
+				}
+				mod = &[3][]int{cp(pb.Coefficients), cp(q2.Coefficients), cp(r2.Coefficients)}
+				pb.Coefficients[0] = lead
+			}
 		}
 	}); pv != nil {
 		failf(t, "C17", "gf-poly", c, "%v", pv)
@@ -276,6 +289,11 @@ func checkPoly(t TB, c PolyCase) {
 		}
 		if wantR := ref.Norm(r); rDeg != len(wantR)-1 || rZero != ref.AllZero(wantR) {
 			failf(t, "C17", "gf-poly", c, "Divide: remainder %v reports Degree()=%d Zero()=%v", r, rDeg, rZero)
+		}
+		if mod != nil {
+			if back := rf.PolyAdd(rf.PolyMul(mod[1], mod[0]), mod[2]); !eqPoly(back, c.A) {
+				failf(t, "C17", "gf-poly", c, "Divide by the same divisor object after its leading coefficient was changed to %d: q=%v r=%v, q*d+r=%v != dividend %v", mod[0][0], mod[1], mod[2], ref.Norm(back), ref.Norm(c.A))
+			}
 		}
 		rn, bn := ref.Norm(r), ref.Norm(c.B)
 		if !(len(rn) < len(bn) || (len(rn) == 1 && rn[0] == 0)) {
@@ -500,6 +518,12 @@ func genRSCase(t *rapid.T) RSCase {
 			dl = rapid.IntRange(0, 3).Draw(t, "dshort")
 		case 1:
 			dl = rapid.IntRange(200, 300).Draw(t, "dlong")
+			if rapid.IntRange(0, 2).Draw(t, "verylong") == 0 { // messages longer than any block size (1024, 2048, 4096 symbols)
+				dl = rapid.SampledFrom([]int{1023, 1024, 1025, 1500, 2047, 2048, 2049, 3000, 4097}).Draw(t, "dvery")
+				if n > 40 {
+					n = 1 + n%40
+				}
+			}
 		default:
 			dl = rapid.IntRange(1, 80).Draw(t, "dlen")
 		}
